@@ -352,6 +352,47 @@ def run(ctx):
                 res.violations.append({"what": "after an edit and a reload of the helper's module only, the signatures differ from those of a process that only saw the "
                                                "edited files (same source text): %s" % (hmaps,),
                                        "input": {"main.py": MAIN, "lib.py before": LIB1, "lib.py after": LIB2, "signatures": hmaps}, "kf": None})
+        # ... nor the order, the repetition and the timing of the calls of dds.accept_module that lead to one set of accepted packages:
+        # a sub-module before or after its package, a module whose name extends the name of another one (pk_utils next to pk),
+        # an evaluation made in between
+        pk = "c3a%d" % os.getpid()
+        os.makedirs(os.path.join(base, pk), exist_ok=True)
+        for fn_, src_ in (("__init__.py", ""), ("util.py", "LEVEL = 3\n\ndef helper():\n    return 'helper'\n"),
+                          ("sub.py", "import dds\nimport %(pk)s.util\nimport %(pk)s_utils\n\ndef stage():\n    return %(pk)s.util.helper() + %(pk)s_utils.scale() + str(%(pk)s.util.LEVEL)\n\n"
+                                     "def f0():\n    return dds.keep('/c03/acc', stage)\n" % {"pk": pk})):
+            with open(os.path.join(base, pk, fn_), "w") as fh:
+                fh.write(src_)
+        with open(os.path.join(base, pk + "_utils.py"), "w") as fh:
+            fh.write("def scale():\n    return 'scale'\n")
+        U, P_, S_ = pk + "_utils", pk, pk + ".sub"
+        orders = {"package, then the module whose name extends it": [P_, U], "the longer name first": [U, P_], "sub-module, then package": [S_, U, P_],
+                  "package, then sub-module": [U, P_, S_], "every call twice": [U, U, P_, P_], "sub-module, evaluation, package": [S_, "RUN", U, P_],
+                  "longer name, evaluation, package, sub-module": [U, "RUN", P_, S_]}
+        amaps = {}
+        for what, seq in orders.items():
+            wk = pipeline.WorkerProc("real", env={"PYTHONHASHSEED": "3"}, cwd=base)
+            try:
+                sd = tempfile.mkdtemp(prefix="c3s_", dir=base)
+                wk.call(cmd="store", kind="memory", internal_dir=sd + "/i", data_dir=sd + "/d")
+                for a_ in seq:
+                    if a_ == "RUN":
+                        wk.call(cmd="run", entry=entry)
+                    else:
+                        wk.call(cmd="world", dir=base, module=pk + ".sub", extmod="c3e_fixed", accept=a_)
+                r = wk.call(cmd="run", entry=entry)
+                amaps[what] = r["paths"] if r["error"] is None else {"REFUSED": [r["error"].get("kind"), r["error"].get("code") or r["error"].get("cls")]}
+            finally:
+                wk.close()
+            res.evaluations += 1
+            res.count("acceptance_orders")
+        res.nontrivial("acceptance orders")
+        ref_ = amaps["package, then the module whose name extends it"]
+        for what, m in amaps.items():
+            if m != ref_ or "REFUSED" in m:
+                res.violations.append({"what": "the signatures depend on the order / repetition / timing of the dds.accept_module calls: %r gives %s, "
+                                               "'package, then the module whose name extends it' gives %s" % (what, m, ref_),
+                                       "input": {"calls": orders[what], "reference": orders["package, then the module whose name extends it"]}, "kf": None})
+                break
         if ctx["driver_ok"]:
             ans = common.drv_batch(mreqs)
             for (w, ref, pinned, pin_name, extmod), a in zip(mmeta, ans):
